@@ -1,13 +1,14 @@
 #!/bin/bash
 # verify_seed.sh <seed-src-dir> <seed-id> <demo-dest-relative-path> <go test args for demo...>
-# Confirms a seeded change in a scratch worktree of /repo HEAD: demo passes without it,
+# Confirms a seeded change in a scratch worktree of /repo HEAD (or of the commit named by SEED_BASE, for a
+# seed whose file was rewritten by a later repair): demo passes without it,
 # fails with it, and the pinned suite still passes with it. Stores it under /verif/seeded/<seed-id>/.
 set -u
 SRC="$1"; ID="$2"; DEST="$3"; shift 3
 WT=/tmp/seedwt.$$
 OUT=/verif/seeded/$ID
 unset GOFLAGS GOTOOLCHAIN GOSUMDB; export GOPROXY=off
-git -C /repo worktree add --detach "$WT" >/dev/null 2>&1 || exit 2
+git -C /repo worktree add --detach "$WT" ${SEED_BASE:-HEAD} >/dev/null 2>&1 || exit 2
 trap 'git -C /repo worktree remove --force "$WT" >/dev/null 2>&1' EXIT
 cd "$WT"
 cp "$SRC/demo_test.go" "$WT/$DEST"
